@@ -6,7 +6,7 @@ Nothing under /repo is touched. Cache lives in /var/tmp/e2verif-build (pure cach
 import os, sys, subprocess, hashlib, shutil, fcntl, time
 
 REPO = os.environ.get('VERIF_REPO', '/repo')
-CACHE = os.environ.get('VERIF_BUILD_CACHE', '/var/tmp/e2verif-build' if os.path.realpath(REPO) == '/repo' else '/var/tmp/e2verif-build-alt')   # a scratch tree (sensitivity runs) does not evict /repo's builds
+CACHE = os.environ.get('VERIF_BUILD_CACHE', '/var/tmp/e2verif-build' if os.path.realpath(REPO) == '/repo' else '/var/tmp/e2verif-build-alt-' + os.path.basename(os.path.realpath(REPO)))   # a scratch tree (sensitivity runs) does not evict /repo's builds
 GUARD = 'E2FSPROGS_VERIF'
 
 COMMON_CONF = ['--disable-nls', '--disable-uuidd', '--disable-fuse2fs', '--disable-e2initrd-helper',
